@@ -248,6 +248,71 @@ fn run(sid: usize, s: &str) -> Option<String> {
                 s,
             )
         }
+        // ---- property C10 / C07: the input types themselves, driven through the `Input` trait ----
+        // 40: IoInput answers every request by position, whatever the order of the requests (Proofs/InputsP.v io_refines:
+        //     the model's io_run equals this by-position reference on every history)
+        40 => {
+            use chumsky::input::{Input, IoInput, ValueInput};
+            let bytes = s.as_bytes().to_vec();
+            let n = bytes.len();
+            let (_c0, mut cache) = IoInput::new(std::io::Cursor::new(bytes.clone())).begin();
+            let mut h: usize = 7;
+            let mut bad = None;
+            for i in 0..(2 * n + 4) {
+                h = h.wrapping_mul(31).wrapping_add(if n > 0 { bytes[i % n] as usize } else { 1 }).wrapping_add(i);
+                let c = if i == 0 { 0 } else { h % (n + 2) };
+                let mut cur = c;
+                // SAFETY: IoInput's cursors are plain offsets; any offset is a valid request (beyond the end: end of input)
+                let got = unsafe { <IoInput<std::io::Cursor<Vec<u8>>> as ValueInput>::next(&mut cache, &mut cur) };
+                let want = bytes.get(c).copied();
+                let want_cur = if want.is_some() { c + 1 } else { c };
+                if got != want || cur != want_cur {
+                    bad = Some(format!("request {} at {}: {:?} then cursor {} | P {:?} then cursor {}", i, c, got, cur, want, want_cur));
+                    break;
+                }
+            }
+            match bad { Some(b) => format!("DIFF M {}", b), None => format!("same {} requests", 2 * n + 4) }
+        }
+        // 41: Input::map over a slice of (token, span) with gapped spans: the cursor k tokens after the start (reached through
+        //     next_maybe and next_ref alternately), and the span of every pair of cursors, against the span formula of the model
+        //     (Inputs.spn_mapped; Proofs/InputsP.v mapped_cursor_refines)
+        41 => {
+            use chumsky::input::{BorrowInput, Input};
+            use chumsky::span::SimpleSpan;
+            let toks: Vec<(char, SimpleSpan)> =
+                s.chars().enumerate().map(|(i, c)| (c, SimpleSpan::from((3 * i + 1)..(3 * i + 2 + i % 2)))).collect();
+            let n = toks.len();
+            let eoi = SimpleSpan::from((3 * n + 5)..(3 * n + 7));
+            fn walk<'a, I: BorrowInput<'a> + Input<'a, Span = SimpleSpan>>(inp: I, n: usize, spans: &[(usize, usize)], eoi_end: usize) -> Option<String>
+            where I::Cursor: Clone {
+                let (c0, mut cache) = inp.begin();
+                let mut cursors = vec![c0.clone()];
+                let mut c = c0;
+                for k in 0..n {
+                    // SAFETY: the cursor comes from begin / the previous call
+                    let some = if k % 2 == 0 { unsafe { I::next_maybe(&mut cache, &mut c) }.is_some() } else { unsafe { I::next_ref(&mut cache, &mut c) }.is_some() };
+                    if !some { return Some(format!("token {} missing", k)); }
+                    cursors.push(c.clone());
+                }
+                for k1 in 0..=n {
+                    for k2 in k1..=n {
+                        // SAFETY: both cursors were produced by this input
+                        let sp = unsafe { I::span(&mut cache, &cursors[k1]..&cursors[k2]) };
+                        let want = if k1 < n {
+                            let st = spans[k1].0;
+                            (st, if k1 == k2 { st } else { spans[k2 - 1].1 })
+                        } else { (eoi_end, eoi_end) };
+                        if (sp.start, sp.end) != want {
+                            return Some(format!("span of cursors {}..{}: {}..{} | P {}..{}", k1, k2, sp.start, sp.end, want.0, want.1));
+                        }
+                    }
+                }
+                None
+            }
+            let spans: Vec<(usize, usize)> = toks.iter().map(|(_, s)| (s.start, s.end)).collect();
+            let inp = toks.as_slice().map(eoi, |(t, s)| (t, s));
+            match walk(inp, n, &spans, eoi.end) { Some(b) => format!("DIFF M {}", b), None => format!("same {} cursors", n + 1) }
+        }
         _ => return None,
     })
 }
